@@ -6,8 +6,8 @@ import sympy as sp
 from ..kernels import contraction_normal_form, expect_labels, K_labels
 from ..stencil_spec import Finding, check_moment_kernel
 from ..report import AnalysisError
-from .momfam import run_kernel, report, sub_extractor
-from .difffam import check_diff_extractor, terms_of_row_sum, order_vector_of_core
+from .momfam import run_kernel, run_kernel_forks, cover_rule, report, sub_extractor
+from .difffam import check_diff_extractor, terms_of_row_sum, order_vector_of_core, shell_roles
 
 KIN = "gbasis.integrals.kinetic_energy.KineticEnergyIntegral.construct_array_contraction"
 
@@ -43,9 +43,13 @@ def run(repo, R):
     must_pass_through(repo, R, repo.func(KIN))
     if R.findings:
         return "a data-dependent shortcut bypasses the recursion; the remaining rules were not evaluated"
-    f, ex = run_kernel(repo, R, KIN)
+    f, forks = run_kernel_forks(repo, R, KIN)
     findings = []
-    if ex is not None:
+    nD = 0
+    for tag, ex in forks:
+        if ex is None:
+            continue
+        cover_rule(R, f, ex, tag=tag)
         st, ret = ex.returns[-1]
         expect_labels(ret, K_labels(2), findings, "KineticEnergyIntegral.construct_array_contraction", f)
         dsubs = sub_extractor(ex, "_compute_differential_operator_integrals_intermediate")
@@ -57,7 +61,8 @@ def run(repo, R):
         for s, name, _r in minfo["stores"]:
             if not [fd for fd in findings if fd.store is s]:
                 R.ok(name, s.func.site, s.text, detail="conforms")
-        roles = {k: v for k, v in minfo["axis_role"].items() if v in ("a", "b")}
+        # (second derivatives are symmetric under the exchange of the two shells: no sign on an exchanged path)
+        roles = shell_roles(minfo, info)
         terms = terms_of_row_sum(ret.e)
         vecs = []
         for cf, t in terms:
@@ -86,7 +91,7 @@ def run(repo, R):
             R.ok("LIN", f.site, "coef_s * NPC_s once per shell in each term")
             R.ok("GATHER", f.site, "prod_c D[order(c), comp_2(c), comp_1(c), c]")
     report(R, f, findings)
-    if ex is not None:
+    if any(e_ is not None for _t, e_ in forks):
         R.floor("D", nD, 3, "derivative-table stores")
     # the property is stated for Cartesian, spherical and mixed bases and with a transformation: the assembly of this operator's base
     # class (norm once per index, own Cartesian->spherical matrix, segment-major blocks, transformation on every index) is part of it
